@@ -238,6 +238,22 @@ POLE_WINDOW = 1e-4   # |alpha_sea - 1| below which a sea-GPD miss is attributed 
 K_ROUND = 16.      # observed <= 1.8 (calibration over 2000 points); 16 leaves a factor ~10
 CAP = 1e-2         # whatever the conditioning: within 1 % of the unsuppressed scale sum |c| m^p
 FLOOR = 1e-12
+POLE_BAND = 0.02   # outer band of the known finding; inside it a miss belongs to the pole only under pole_amplified()
+
+
+def pole_amplified(x, eta, p):
+    """The known Gamma(1+p) pole of _intsea does not only give inf/nan at alpha_sea = 1: on the exact branch the two
+    cancelling terms are (m/eta)^5 g(p) larger than their sum and g(p) ~ 1/(1+p), so the rounding error of the closed form
+    is amplified by the pole well outside |alpha_sea - 1| < 1e-4 when m/eta is large (just above the Taylor switch:
+    Eu(-0.0485, 5.0e-4, -0.3817, 2.0) is off by 2.4 % at |1+p| = 1.4e-4, m/eta = 97 — VERIF_SEED=205).  A miss inside
+    the outer band is attributed to the known finding exactly when that predicted amplified rounding error (with the
+    OBSERVED constant 2, not the allowance K_ROUND) exceeds the cap of the tolerance, i.e. when the tolerance could not follow
+    the conditioning; every other miss in the band is reported under its ordinary key."""
+    ax = abs(x)
+    if ax >= eta and eta / ax < 1e-2:
+        return False                    # Taylor branch: no cancellation
+    m = max(ax, eta)
+    return abs(1 + p) < POLE_BAND and 2 * EPS * (m / eta) ** 5 * g_pref(2, p) > CAP
 
 
 def g_pref(n, p):
@@ -745,7 +761,7 @@ def run(rep):
         nonlocal quad_bad
         reg = region_of(x, eta)
         sea = name in SEA
-        near_pole = sea and abs(alpha_sea(t, Q2) - 1) < POLE_WINDOW
+        near_pole = sea and (abs(alpha_sea(t, Q2) - 1) < POLE_WINDOW or pole_amplified(x, eta, -alpha_sea(t, Q2)))
         cmd = ("python -c \"from gepard.gk import GoloskokovKrollCFF as G; print(G().%s(%r, %r, %r, %r))\""
                % (name, x, eta, t, Q2))
         r, e, tol = ref(name, x, eta, t, Q2)
@@ -918,7 +934,7 @@ def run(rep):
         elif jump > tlo + thi + abs(float(rhi - rlo)):
             bad = ('jump at the switch', hi, vhi, vlo, tlo + thi)
         if bad:
-            near_pole = sea and abs(1 + p) < POLE_WINDOW
+            near_pole = sea and (abs(1 + p) < POLE_WINDOW or pole_amplified(x, bad[1], p))
             rep.violation('gk/sea/alpha1-pole' if near_pole else 'gk/switch/%s' % kind,
                           '_int%s(x=%r, eta=%r, alt=%r, j=%d): %s gives %r, required %r (allowed %.3g)' % (
                               kind, x, bad[1], alt, j, bad[0], bad[2], bad[3], bad[4]),
